@@ -59,9 +59,15 @@ func findRepoPath(dir string) (string, error) {
 	for {
 		gitPath := filepath.Join(dir, ".git")
 
-		if info, err := os.Stat(gitPath); err == nil && info.IsDir() {
+		info, err := os.Stat(gitPath)
+
+		switch {
+		case err == nil && info.IsDir():
 			return dir, nil
-		} else if !os.IsNotExist(err) {
+		case err == nil:
+			// a .git file, as in the work tree of a submodule or a linked work tree
+			return "", fmt.Errorf("%s is not a directory: submodules and linked work trees are not supported", gitPath)
+		case !os.IsNotExist(err):
 			return "", fmt.Errorf("failed to check .git directory: %w", err)
 		}
 
